@@ -94,7 +94,7 @@ struct Input {
 
 pub fn run(p: &Params) -> Report {
     let mut rep = Report::new("C04");
-    rep.rule = "cases = (state, spending transaction) in which everything except authorisation is valid by construction (coins exist, balanced, fee paid, unlocked, well-formed): 1-8 inputs drawn from covenant families ed25519 legacy/new (right/wrong key, right/wrong slot, signature over another transaction, fields tampered after signing, truncated), hash-lock on data, time-lock and deadline on the previous header's height, spender-index-, value-, additional-data-, parent-height-, parent-index-, output-count-bound, self-hash and random programs; inputs may share one covenant hash while differing in environment; covenants may be missing or undecodable. Oracle: the reference interpreter on the reference environment heap for every input: accepted => every input authorised; for the two standard signature covenants also all authorised => accepted. Non-trivial = >= 2 inputs, or an environment-dependent covenant, or a tampered transaction; distinct by transaction hash".into();
+    rep.rule = "cases = (state, spending transaction) in which everything except authorisation is valid by construction (coins exist, balanced, fee paid, unlocked, well-formed): 1-8 inputs drawn from covenant families ed25519 legacy/new (right/wrong key, right/wrong slot, signature over another transaction, fields tampered after signing, truncated), hash-lock on data, time-lock and deadline on the previous header's height, spender-index-, value-, additional-data-, parent-height-, parent-index-, output-count-bound, self-hash and random programs; inputs may share one covenant hash while differing in environment, down to twin coins that differ only in coin id and input position; covenants may be missing or undecodable. Oracle: the reference interpreter on the reference environment heap for every input: accepted => every input authorised; for the two standard signature covenants also all authorised => accepted. Non-trivial = >= 2 inputs, or an environment-dependent covenant, or a tampered transaction; distinct by transaction hash".into();
     let total = p.n(100_000, 2_500_000);
     let mine = p.share(total);
     let mut rng = Rng::new(p.shard_seed() ^ 0xC04);
@@ -114,8 +114,15 @@ pub fn run(p: &Params) -> Report {
         // choose families; with some probability reuse the previous input's covenant (shared hash, different environment)
         let mut inputs: Vec<Input> = vec![];
         for i in 0..n_in {
+            let mut twin_of: Option<usize> = None;
             let fam = if i > 0 && r.chance(2, 5) {
-                inputs[r.usize(i)].fam.clone()
+                let j = r.usize(i);
+                if r.chance(1, 2) {
+                    // a twin: same covenant, value, denomination, additional data and creation height; only the
+                    // coin id and the position among the inputs differ
+                    twin_of = Some(j);
+                }
+                inputs[j].fam.clone()
             } else {
                 match r.below(14) {
                     0 | 1 => Fam::SigNew(r.usize(4)),
@@ -156,9 +163,12 @@ pub fn run(p: &Params) -> Report {
                 n => vec![(n - 1) as u8, 7],
             };
             let id = CoinID { txhash: TxHash(HashVal(r.arr32())), index: r.below(3) as u8 };
-            let cdh = CoinDataHeight {
-                coin_data: CoinData { covhash: addr_of(&cov), value: CoinValue(value), denom, additional_data: Bytes::from(ad) },
-                height: BlockHeight(height - 1 - r.below(2)),
+            let cdh = match twin_of {
+                Some(j) => inputs[j].cdh.clone(),
+                None => CoinDataHeight {
+                    coin_data: CoinData { covhash: addr_of(&cov), value: CoinValue(value), denom, additional_data: Bytes::from(ad) },
+                    height: BlockHeight(height - 1 - r.below(2)),
+                },
             };
             inputs.push(Input { fam, id, cdh });
         }
